@@ -3,17 +3,24 @@ package c13
 
 import (
 	"bytes"
+	"context"
 	"encoding/json"
+	"errors"
 	"fmt"
 	"path"
 	"reflect"
 	"sort"
 	"strings"
+	"sync"
+	"sync/atomic"
+	"time"
 
 	"github.com/jamf/regatta/storage/kv"
 	dbsm "github.com/lni/dragonboat/v4/statemachine"
 
+	"verif/harness/engx"
 	"verif/harness/evid"
+	"verif/harness/metastore"
 	"verif/harness/par"
 )
 
@@ -349,6 +356,7 @@ func Run(r *evid.Run) {
 	if wdone < wtotal {
 		r.Cap(fmt.Sprintf("deadline: %d of %d wide sequences", wdone, wtotal))
 	}
+	runConformance(r)
 	r.Extra("narrow_sequences", done)
 	r.Extra("wide_sequences", wdone)
 	r.Assume("an update on an absent key succeeds whatever version is supplied (the property constrains existing keys only)")
@@ -370,4 +378,129 @@ func Replay(raw json.RawMessage) (string, bool) {
 		fmt.Fprintf(&sb, "%s: %s\n", v.sig, v.detail)
 	}
 	return sb.String(), len(vs) == 0
+}
+
+// runConformance: the store adapter used by C14/C15 (metastore.NodeStore over kv.LFSM) and the real
+// kv.RaftStore over a real dragonboat NodeHost must agree on every update sequence of length <= 2 of
+// the narrow alphabet: error class and returned pair (versions compared by role, the real log starts
+// with Raft's own entries), and every key's final presence and value.
+func runConformance(r *evid.Run) {
+	eng, err := engx.Start(engx.Opts{})
+	if err != nil {
+		r.Inconcl.Add(1)
+		r.Extra("conformance", "engine did not start: "+err.Error())
+		return
+	}
+	defer eng.Close()
+	alpha := alphabet(narrowKeys, []int{0, 1, 2, 3}, []string{"v1", `{"json":"<&>"}`})
+	total := par.SeqCount(len(alpha), 2)
+	type side struct {
+		set func(k, v string, ver uint64) (kv.Pair, error)
+		del func(k string, ver uint64) error
+		get func(k string) (kv.Pair, error)
+		cur map[string]uint64
+		prv map[string]uint64
+	}
+	resolve := func(s *side, o opDef) uint64 {
+		cur := s.cur[o.Key]
+		switch o.VerK {
+		case 0:
+			return 0
+		case 1:
+			return cur
+		case 2:
+			if p, ok := s.prv[o.Key]; ok && p != cur {
+				return p
+			}
+			if cur > 0 {
+				return cur - 1
+			}
+			return 1
+		case 3:
+			return cur + 1
+		}
+		return 1 << 62
+	}
+	errClass := func(err error) string {
+		switch {
+		case err == nil:
+			return "ok"
+		case errors.Is(err, kv.ErrVersionMismatch):
+			return "version-mismatch"
+		case errors.Is(err, kv.ErrNotExist):
+			return "not-exist"
+		}
+		return "other:" + err.Error()
+	}
+	var shard atomic.Uint64
+	shard.Store(5000)
+	compared := int64(0)
+	old := par.Workers
+	par.Workers = 8
+	defer func() { par.Workers = old }()
+	var mu sync.Mutex
+	par.For(total, r.Expired, func(i int64) {
+		seq := par.SeqAt(len(alpha), 2, i)
+		// adapter side
+		c := metastore.NewCluster(1, false)
+		ns := &metastore.NodeStore{C: c, Node: 0}
+		a := &side{set: ns.Set, del: ns.Delete, get: ns.Get, cur: map[string]uint64{}, prv: map[string]uint64{}}
+		// real side: a RaftStore on its own shard of the shared NodeHost
+		rs := &kv.RaftStore{NodeHost: eng.NodeHost, ClusterID: shard.Add(1)}
+		if err := rs.Start(kv.RaftConfig{NodeID: 1, ElectionRTT: 10, HeartbeatRTT: 1, InitialMembers: eng.Config().InitialMembers}); err != nil {
+			r.Inconcl.Add(1)
+			return
+		}
+		ctx, cancel := context.WithTimeout(context.Background(), 20*time.Second)
+		werr := rs.WaitForLeader(ctx)
+		cancel()
+		if werr != nil {
+			r.Inconcl.Add(1)
+			return
+		}
+		defer func() { _ = eng.NodeHost.StopShard(rs.ClusterID) }()
+		b := &side{set: rs.Set, del: rs.Delete, get: rs.Get, cur: map[string]uint64{}, prv: map[string]uint64{}}
+		for step, oi := range seq {
+			o := alpha[oi]
+			var res [2]string
+			for si, s := range []*side{a, b} {
+				ver := resolve(s, o)
+				if o.Op == "set" {
+					p, err := s.set(o.Key, o.Value, ver)
+					res[si] = fmt.Sprintf("%s key=%s value=%s", errClass(err), p.Key, p.Value)
+					if err == nil {
+						if c, ok := s.cur[o.Key]; ok {
+							s.prv[o.Key] = c
+						}
+						s.cur[o.Key] = p.Ver
+					}
+				} else {
+					err := s.del(o.Key, ver)
+					res[si] = errClass(err)
+					if err == nil {
+						if c, ok := s.cur[o.Key]; ok {
+							s.prv[o.Key] = c
+						}
+						delete(s.cur, o.Key)
+					}
+				}
+			}
+			mu.Lock()
+			compared++
+			mu.Unlock()
+			if res[0] != res[1] {
+				r.Violate("conformance/store-adapter-differs-from-RaftStore", fmt.Sprintf("sequence %v step %d %s: adapter %q, RaftStore %q", describe(alpha, seq), step, o, res[0], res[1]), map[string]any{"kind": "conformance", "seq": seq})
+				return
+			}
+		}
+		for _, k := range narrowKeys {
+			pa, ea := a.get(k)
+			pb, eb := b.get(k)
+			if errClass(ea) != errClass(eb) || pa.Value != pb.Value {
+				r.Violate("conformance/store-adapter-differs-from-RaftStore/final-read", fmt.Sprintf("sequence %v key %s: adapter %v %v, RaftStore %v %v", describe(alpha, seq), k, pa, ea, pb, eb), map[string]any{"kind": "conformance", "seq": seq})
+			}
+		}
+		r.AddExtra("conformance_sequences_compared_with_real_RaftStore", 1)
+	})
+	r.Extra("conformance_updates_compared", compared)
 }
